@@ -6,7 +6,7 @@ import graphlib as gl
 from common import run_driver
 
 RULE = ('random ontologies containing HP:0000118 with 1-4 organ-system children, multi-parent terms shared between branches, terms '
-        'outside the phenotype branch (n <= 20; 40 thorough) x information-content maps (monotone, arbitrary, with missing entries, all '
+        'outside the phenotype branch (several levels deep; phenotype terms may have a second parent there) (n <= 20; 40 thorough) x information-content maps (monotone, arbitrary, with missing entries, all '
         'zero; values multiples of 1/8 so float comparison is exact) -> precalculate_ic_mica_for_hpo_concept_pairs; the WHOLE symmetric '
         'matrix over all ordered pairs of nodes (incl. HP:0000118, the root, unknown-to-IC terms), len() and the sorted items() '
         'compared with the Lean model, before and after reading every pair (reads must not create entries); exhaustive: every '
@@ -92,14 +92,19 @@ def random_hpo(rng, n_extra):
         edges.add((s, pa))
     others = [f'HP:{i:07d}' for i in rng.sample(range(200, 900), n_extra)]
     placed = list(systems)
+    outside = []
     for t in others:
         r = rng.random()
-        if r < 0.12:
-            edges.add((t, root))                      # outside the phenotype branch (e.g. mode of inheritance)
+        if r < 0.15:
+            # outside the phenotype branch (e.g. clinical modifier, mode of inheritance), possibly a few levels deep
+            edges.add((t, rng.choice([root] + outside)))
+            outside.append(t)
             continue
         parents = rng.sample(placed, min(len(placed), rng.choice([1, 1, 1, 2, 2, 3])))
         for p in parents:
             edges.add((t, p))
+        if outside and rng.random() < 0.2:
+            edges.add((t, rng.choice(outside)))       # a phenotype term with a second parent OUTSIDE Phenotypic abnormality
         placed.append(t)
     el = sorted(edges)
     rng.shuffle(el)
